@@ -10,6 +10,7 @@ import (
 	"fmt"
 	"os"
 	"runtime"
+	"strconv"
 	"strings"
 	"sync"
 	"time"
@@ -21,13 +22,37 @@ var handlers = map[string]handler{}
 
 func register(tag string, h handler) { handlers[tag] = h }
 
-func run(h handler, args []string) (res string) {
+func run1(h handler, args []string) (res string) {
 	defer func() {
 		if r := recover(); r != nil {
 			res = "PANIC"
 		}
 	}()
 	return h(args)
+}
+
+// caseTimeout bounds one case (VERIF_CASE_TIMEOUT seconds, default 90): a library call that does not
+// return is reported as HANG and the remaining cases still run (the stuck goroutine is abandoned).
+var caseTimeout = func() time.Duration {
+	if s := os.Getenv("VERIF_CASE_TIMEOUT"); s != "" {
+		if n, err := strconv.Atoi(s); err == nil && n > 0 {
+			return time.Duration(n) * time.Second
+		}
+	}
+	return 90 * time.Second
+}()
+
+func run(h handler, args []string) string {
+	done := make(chan string, 1)
+	go func() { done <- run1(h, args) }()
+	t := time.NewTimer(caseTimeout)
+	defer t.Stop()
+	select {
+	case r := <-done:
+		return r
+	case <-t.C:
+		return "HANG(no result within " + caseTimeout.String() + ")"
+	}
 }
 
 // -par G: handle all input lines with G goroutines concurrently (results printed in input
@@ -96,6 +121,7 @@ func main() {
 		line = strings.TrimRight(line, "\n")
 		if line != "" {
 			fmt.Fprintln(out, handle(line))
+			out.Flush()
 		}
 		if err != nil {
 			break
